@@ -199,6 +199,10 @@ int main(int argc, char ** argv) {
             for (k = 0; k < len; k++) total *= 6;
             for (c = 0; c < total; c++) { long x = c; for (k = 0; k < len; k++) { s[k] = al[x % 6]; x /= 6; } case_text(s, (size_t) len); }
         }
+        for (len = 1; len <= 127; len++) {          /* every 7-bit character alone and between letters */
+            s[0] = (unsigned char) len; case_text(s, 1);
+            s[0] = 'x'; s[1] = (unsigned char) len; s[2] = 'y'; case_text(s, 3);
+        }
         for (i = 0; i < (thorough ? 3000 : 300); i++) {
             size_t n = 6 + rnd() % 195, k;
             for (k = 0; k < n; k++) { unsigned r = (unsigned) (rnd() % 20); s[k] = r == 0 ? '"' : r == 1 ? '\'' : (unsigned char) (1 + rnd() % 127); }
